@@ -15,9 +15,7 @@ static void oracle_qltlv(const vcfg *c, const uint8_t *f, size_t n) {
     V_ASSERT(f[F_OP] == 0x0C, "C08: a QueryLargeTlv is answered by a QueryLargeTlvResp");
     V_ASSERT(mac6_eq(f + F_ESRC, c->mac), "C02: QueryLargeTlvResp sourced from own address");
     V_ASSERT(f[F_SEQ] == in.frame[F_SEQ] && f[F_SEQ + 1] == in.frame[F_SEQ + 1], "C08: response carries the request's sequence number");
-    bool bridged = !mac6_eq(in.frame + F_RSRC, in.frame + F_ESRC);
-    if (bridged) V_ASSERT(mac6_is_bcast(f + F_EDST) && mac6_is_bcast(f + F_RDST), "C02: QueryLargeTlvResp broadcast when the mapper is behind a bridge");
-    else V_ASSERT(mac6_eq(f + F_EDST, in.frame + F_RSRC) && mac6_eq(f + F_RDST, in.frame + F_RSRC), "C02: QueryLargeTlvResp goes to the mapper");
+    /* destination of a QueryLargeTlvResp (unicast / broadcast-if-bridged) is not fixed by C02 or C08: not asserted */
     V_ASSERT(n >= 34, "C02: QueryLargeTlvResp has its length field");
     size_t maxp = c->mtu - 34;
     unsigned v = be16(f + 32); size_t L = v & 0x7FFF; bool more = (v & 0x8000) != 0;
